@@ -461,6 +461,16 @@ class Report:
     floors: dict = field(default_factory=dict)
     extra: dict = field(default_factory=dict)
     t0: float = field(default_factory=time.time)
+    deferred: list = field(default_factory=list)
+
+    def sub(self, fn, *args, **kw):
+        """Run one group of obligations; a shape it cannot read is remembered instead of aborting the run, so that
+        violations found by the other groups are still reported (a run with no violation and a deferred error is exit 2)."""
+        try:
+            return fn(*args, **kw)
+        except AnalysisError as e:
+            self.deferred.append(str(e))
+            return None
 
     def analysed(self, *names):
         for n in names:
@@ -538,6 +548,10 @@ def finish(rep: Report, seed: int = 0, write: bool = True, quiet: bool = False) 
             listed.append(o)
         else:
             unlisted.append(o)
+    if rep.deferred and not unlisted:
+        raise AnalysisError(f"{rep.prop}: " + "; ".join(rep.deferred))
+    for d in rep.deferred:
+        out.append(f"NOTE: part of the analysis could not be completed: {d}")
     seen = set()
     for o in listed:
         if o.key in seen:
